@@ -9,6 +9,12 @@
 //!   yv-g07 random --n N --size S --mode sim|real --out recs.ndjson --full recs.full.ndjson [--jobs J]
 //!       impl -> spec: seeded random larger programs are executed and recorded
 //!       for validation by spec/Trace_NestedExec.tla.
+//!       `--fail P`: P percent of the leaves are planted failing commands
+//!       (`fail c`, nested-errors stage of C10; see failtab.rs).
+//!       `--table 1 [--ctxs C] [--eopts E]`: instead of random programs, every
+//!       entry of the catalogue of failing commands in C contexts (directly, in
+//!       eval, a dot script, a subshell, an if condition, a function called by
+//!       eval) with errexit off (and on, E = 2).
 //!   yv-g07 redo   --in replay.json
 //!       re-executes the program of a replay file and prints the observation.
 //!
@@ -17,6 +23,7 @@
 //! "crash"), never a harness failure.
 mod ast;
 mod exec;
+mod failtab;
 mod randgen;
 mod render;
 
@@ -197,6 +204,7 @@ fn worker_run(args: &[String]) -> i32 {
                     }
                     if fails.len() < 2 {
                         fails.push(json!({"feat": feat, "e": o["e"], "t": o["t"], "tg": o["tg"], "x": o["x"], "why": why, "text": rendered.script,
+                            "inv": inv_json(&rendered),
                             "flags": rendered.flags, "stdin": rendered.via_stdin, "files": files_json(&rendered),
                             "expected": {"tr": o["tr"], "st": exp_st}, "observed": obs_json(&obs)}));
                     }
@@ -212,6 +220,41 @@ fn worker_run(args: &[String]) -> i32 {
     0
 }
 
+/// contexts of the table mode
+const TABLE_CTXS: usize = 6;
+
+/// The program of the table mode: the failing command of entry `entry`
+/// executed directly (0), by eval (1), by a dot script (2), in a subshell (3),
+/// as the condition of an if (4), by a function called by eval (5), each
+/// followed by an observation point; errexit off / on.
+fn table_program(entry: usize, ctx: usize, e: usize) -> (Node, bool) {
+    let f = Node::leaf("fail", 0, failtab::TABLE[entry].cat);
+    let p = Node::leaf("P", 0, "");
+    let seq = |a: Node, b: Node| Node::with("seq", 0, "", vec![a, b]);
+    let body = match ctx {
+        0 => f,
+        1 => Node::with("eval", 0, "", vec![f]),
+        2 => Node::with("dot", 0, "", vec![f]),
+        3 => Node::with("sub", 0, "", vec![f]),
+        4 => Node::with("if", 0, "", vec![f, Node::leaf("mk", 0, "")]),
+        _ => seq(Node::with("def", 0, "f", vec![f]), Node::with("eval", 0, "", vec![Node::leaf("cmd", 0, "f")])),
+    };
+    (seq(body, p), e != 0)
+}
+
+/// The failing-command invocations a rendering used: "category builtin: text".
+fn inv_json(r: &render::Rendered) -> Value {
+    Value::Array(
+        r.fails
+            .iter()
+            .map(|&i| {
+                let e = &failtab::TABLE[i];
+                json!(format!("{} {}: {}", e.cat, e.builtin, e.text))
+            })
+            .collect(),
+    )
+}
+
 /// P3 worker: generates program i from the seed, executes it, records it.
 fn worker_random(args: &[String]) -> i32 {
     let n = opt_usize(args, "--n", 100);
@@ -224,6 +267,12 @@ fn worker_random(args: &[String]) -> i32 {
     // re-execution of selected programs, optionally avoiding the notable input variants
     let indices: Option<Vec<usize>> = opt(args, "--indices").map(|s| s.split(',').filter_map(|x| x.parse().ok()).collect());
     let avoid = opt_usize(args, "--avoid", 0) != 0;
+    let fail = opt_usize(args, "--fail", 0) as u32;
+    // table mode: program idx = one entry of failtab::TABLE in one context with one errexit setting
+    let table = opt_usize(args, "--table", 0) != 0;
+    let nctx = opt_usize(args, "--ctxs", TABLE_CTXS).clamp(1, TABLE_CTXS);
+    let ne = opt_usize(args, "--eopts", 2).clamp(1, 2);
+    let n = if table { failtab::TABLE.len() * nctx * ne } else { n };
     let sd = seed();
     for idx in 0..n {
         if let Some(l) = &indices {
@@ -240,21 +289,30 @@ fn worker_random(args: &[String]) -> i32 {
         }
         let mut rng = StdRng::seed_from_u64(mix(mix(sd, 0x5eed), idx as u64));
         use rand::Rng;
-        let sz = rng.gen_range(3..=size);
-        let tree0 = {
-            let mut g = randgen::Gen { rng: &mut rng, real: mode == Mode::Real };
-            g.program(sz)
+        let (tree0, e, t, force) = if table {
+            let entry = idx / (nctx * ne);
+            let (tree0, e) = table_program(entry, (idx / ne) % nctx, idx % ne);
+            (tree0, e, 1i64, Some(entry))
+        } else {
+            let sz = rng.gen_range(3..=size);
+            let tree0 = {
+                let mut g = randgen::Gen { rng: &mut rng, real: mode == Mode::Real, fail };
+                g.program(sz)
+            };
+            let e = rng.gen_bool(0.3);
+            let t: i64 = if rng.gen_bool(0.5) { 0 } else { rng.gen_range(1..=3) };
+            (tree0, e, t, None)
         };
         let mut toks = vec![];
         ast::flatten(&tree0, &mut toks);
         let tree = ast::parse(&toks).expect("own program parses");
-        let e = rng.gen_bool(0.3);
-        let t: i64 = if rng.gen_bool(0.5) { 0 } else { rng.gen_range(1..=3) };
-        let mut rd = Renderer::new(mix(sd, idx as u64), mode, true);
+        let mut rd = Renderer::new(mix(sd, idx as u64), mode, !table);
         rd.avoid_blank_lines = avoid;
+        rd.force_fail = force;
         let rendered = rd.program(&tree, e, t);
         let head = json!({"i": idx, "p": toks, "e": e as i64, "t": t, "text": rendered.script, "feats": rendered.feats,
                           "flags": rendered.flags, "stdin": rendered.via_stdin, "files": files_json(&rendered),
+                          "inv": inv_json(&rendered),
                           "mode": if mode == Mode::Real { "real" } else { "sim" }});
         emit(&format!("S {} {}", idx, head));
         let obs = execute(mode, &rendered);
@@ -515,6 +573,7 @@ fn cmd_redo(args: &[String]) -> i32 {
             flags: v["flags"].as_array().map(|a| a.iter().filter_map(|f| f.as_str().map(String::from)).collect()).unwrap_or_default(),
             via_stdin: v["stdin"].as_bool().unwrap_or(false),
             feats: vec![],
+            fails: vec![],
             files: v["files"]
                 .as_array()
                 .map(|a| {
